@@ -42,6 +42,11 @@ pub struct Case {
   target: Target,
   threads_flavour: bool,
   acts: Vec<Act>,
+  /// Status target: k > 0 puts a `take(k)` between `complete_status()` and the
+  /// subscriber, so the downstream may end before the source does - the status
+  /// is still about the source
+  #[serde(default)]
+  status_take: usize,
 }
 
 pub struct C14Des;
@@ -106,7 +111,8 @@ impl Scenario for C14Des {
     while rng.chance(1, 2) {
       acts.push(Act::Poll);
     }
-    serde_json::to_value(Case { target, threads_flavour: rng.chance(1, 3), acts }).unwrap()
+    let status_take = if target == Target::Status && rng.chance(1, 3) { rng.range(1, 2) } else { 0 };
+    serde_json::to_value(Case { target, threads_flavour: rng.chance(1, 3), acts, status_take }).unwrap()
   }
 
   fn run(&self, case: &Value) -> Result<Outcome, String> {
@@ -129,19 +135,30 @@ impl Scenario for C14Des {
       (Target::Status, false) => {
         let (o, st) = local.clone().complete_status();
         let l = ProbeLog::new(false);
-        o.actual_subscribe(Probe(l.clone()));
+        if case.status_take > 0 {
+          o.take(case.status_take).actual_subscribe(Probe(l.clone()));
+        } else {
+          o.actual_subscribe(Probe(l.clone()));
+        }
         Tgt::Status(st, l)
       }
       (Target::Status, true) => {
         let (o, st) = shared_s.clone().complete_status();
         let l = ProbeLog::new(false);
-        o.actual_subscribe(Probe(l.clone()));
+        if case.status_take > 0 {
+          o.take(case.status_take).actual_subscribe(Probe(l.clone()));
+        } else {
+          o.actual_subscribe(Probe(l.clone()));
+        }
         Tgt::Status(st, l)
       }
     };
     let flag = Arc::new(FlagWaker(std::sync::atomic::AtomicBool::new(false)));
     let waker = Waker::from(flag.clone());
-    let site = format!("{:?}", case.target);
+    if case.status_take > 8 || (case.status_take > 0 && case.target != Target::Status) {
+      return Err("bad shape".into());
+    }
+    let site = format!("{:?}{}", case.target, if case.status_take > 0 { "+take" } else { "" });
     let mut items: Vec<Val> = Vec::new();
     let mut terminal: Option<Ev> = None; // the first terminal
     let mut queue: std::collections::VecDeque<Ev> = Default::default(); // for streams
@@ -330,7 +347,7 @@ impl Scenario for C14Des {
       ],
       reach: vec![],
       resolved: None,
-      sample: format!("{:?}{}: {}", case.target, if case.threads_flavour { "/threads" } else { "" }, trace.trim()),
+      sample: format!("{}{}: {}", site, if case.threads_flavour { "/threads" } else { "" }, trace.trim()),
     })
   }
 }
